@@ -33,6 +33,7 @@ def c01(ctx):
     sem.trace_batches(ctx, "mixed", "MachineTrace_C01.cfg", n, b)
     sem.trace_batches(ctx, "multi", "MachineTrace_C01.cfg", n, b)
     sem.scale_sem(ctx, "multi", "MachineTrace_C01.cfg", scale(ctx, 1500, 15000))
+    sem.family_replay(ctx, "src", "MachineTrace_C01.cfg")          # every member of the exhaustive source family (bounded overdrafts on negative balances, zero shares first, ...)
     if ctx.tier == "thorough":
         sem.family_replay(ctx, "prog", "MachineTrace_C01.cfg")     # every two-statement program of the design-level family on the real interpreter
     sem.repo_corpus(ctx, "MachineTrace_C01.cfg")
